@@ -3,6 +3,7 @@ from .gea import Seq, Alt
 from . import p_c01, p_c06, p_c03
 from .p_c06 import fn_lang, N
 
+TECHNIQUE = 'static analysis: event-language equality of partial_cmp (NaN, equality, cross-multiplication orientation) and of branch selection in interpreter and emitted code; sign-repair rules of the canonicaliser'
 LEVEL = "other"
 EXPLANATION = (
     "Num::partial_cmp is compared on all CFG paths with the definition of the order on canonical fractions: unordered "
